@@ -344,6 +344,52 @@ func C13(p *ir.Program, r *report.R) {
 			}
 			r.Check("K2", name+"/undo-log/old-value-or-absent-marker", p.Pos(cm.Pos()), !found, d)
 		}
+		// trie storage mode: the wrapper delegates the commit with its own arguments. The leaf callback is
+		// what records the references from an account to its storage root and code; without it the trie
+		// database flushes the account trie only and everything else is lost at the next restart.
+		{
+			n := 0
+			for _, call := range ir.Calls(cm, "state.Trie.Commit") {
+				if Arg(call, 0) != "kvTrie.oldTrie" {
+					continue
+				}
+				n++
+				r.Check("K5", name+"/trie-mode/delegates-with-own-arguments", p.InstrPos(call.(ssa.Instruction)), Arg(call, 1) == "onleaf" && Arg(call, 2) == "height", "oldTrie.Commit(onleaf, height): "+Arg(call, 1)+", "+Arg(call, 2))
+			}
+			c.MustFind("K5", name+"/trie-mode/delegation", cm, n, "oldTrie.Commit call")
+		}
+		// the key in the undo record is the key the batch writes (and the key whose old value was loaded):
+		// the same SSA value, after the storage-address prefix was prepended — a record that names
+		// keccak(slot) instead of addrHash||keccak(slot) rolls back nothing.
+		{
+			var recKeys, opKeys, loadKeys []ssa.Value
+			ir.Instrs(cm, func(in ssa.Instruction) {
+				if isKeyRec(in) {
+					if ap, ok := in.(*ssa.Store).Val.(*ssa.Call); ok && len(ap.Call.Args) == 2 && !strings.Contains(ir.Render(ap.Call.Args[1]), "Load(") {
+						recKeys = append(recKeys, ap.Call.Args[1])
+					}
+				}
+				if call, ok := in.(*ssa.Call); ok {
+					switch ir.CalleeName(call) {
+					case "db.Batch.Set", "db.Batch.Delete":
+						opKeys = append(opKeys, operandArgs(call)[1])
+					case "db.DB.Load":
+						if loop != nil && loop.Body[in.Block()] {
+							loadKeys = append(loadKeys, operandArgs(call)[1])
+						}
+					}
+				}
+			})
+			same := len(recKeys) > 0 && len(opKeys) > 0 && len(loadKeys) > 0
+			for _, k := range append(append([]ssa.Value{}, opKeys...), loadKeys...) {
+				for _, rk := range recKeys {
+					if k != rk {
+						same = false
+					}
+				}
+			}
+			r.Check("K5", name+"/undo-log/recorded-key-is-the-written-key", p.Pos(cm.Pos()), same, fmt.Sprintf("the undo record, the old-value lookup and the batch operation use one key value (%d records, %d lookups, %d operations)", len(recKeys), len(loadKeys), len(opKeys)))
+		}
 		for _, call := range ir.Calls(cm, "db.Batch.Commit") {
 			c.Guards(name, "batch commit", call.(ssa.Instruction), G{"undo-log-synced-first", "eq(state.wrappedDB.saveWAL(kvTrie.db,kvTrie.walBz),nil)"})
 		}
@@ -379,6 +425,8 @@ func C13(p *ir.Program, r *report.R) {
 		c.MustFind("K1", "state.rebuildLastState/torn-tail", rb, nRead, "reads of the undo log buffer")
 	}
 
+	// pruning and saving address blocks only through the injective key builders (shared with C12)
+	storeKeyRules(c, "blockchain", 7)
 }
 
 var _ = report.Discharged
